@@ -578,8 +578,8 @@ fn run_history(run: &Run, idx: u64, h: &mut Hist, sc: &Scratch, stats: &mut Stat
 fn main() {
 	let run = Run::from_env("C06", "exploration");
 	init_globals(true);
-	let n_skip: u64 = run.tier.pick(28, 260);
-	let n_real: u64 = run.tier.pick(4, 40);
+	let n_skip: u64 = run.tier.pick(58, 400);
+	let n_real: u64 = run.tier.pick(6, 48);
 	let total = n_skip + n_real;
 	if let Some((shard, n)) = run.worker_shard() {
 		init_thread(true);
@@ -681,7 +681,7 @@ fn main() {
 	run.require("bad_blocks_on_fork_parent", run.counter("bad_blocks_on_fork_parent"), run.tier.pick(10, 100));
 	for c in BLOCK_CLASSES {
 		let n = run.counter(&format!("rejected.{}", c)) + run.counter(&format!("rejected.{}@fork", c));
-		run.require(&format!("rejected.{}(+@fork)", c), n, run.tier.pick(2, 20));
+		run.require(&format!("rejected.{}(+@fork)", c), n, run.tier.pick(1, 8));
 	}
 	for c in ["header_batch_kth_bad", "tx_spends_spent_output", "read_time_truncated_block"] {
 		run.require(&format!("rejected.{}", c), run.counter(&format!("rejected.{}", c)), run.tier.pick(2, 20));
